@@ -7,7 +7,7 @@ from ..harness import Harness, FEATURE_SETS
 
 PROPS = "theories/Props/C05.v"
 MODULE = "Props.C05"
-SUPPORT = ["theories/Spec/Names.v", "theories/Spec/Anchors.v"]
+SUPPORT = ["theories/Spec/Names.v", "theories/Spec/Anchors.v", "theories/Spec/C05Defs.v"]
 RS, US = "\x01", "\x02"
 
 
@@ -64,7 +64,11 @@ def run(ctx):
                                "declared_coefficient": u["coef"], "declared_coefficient_exact": u["coef_q"], "dimension": t.qmap[m]["dim"],
                                "what": "the identifier composes (prefixes / other units / per, square, cubic, squared, cubed) to a different coefficient or dimension than the unit declares",
                                "source_line": u.get("line")})
-        else:
+        diag = table_diagnostics()
+        for thm, what, entries in diag:
+            for e in entries[:3]:
+                ctx.violation({"kind": "table", "theorem": thm, "entry": e, "what": what, "declared": describe(t, e)})
+        if not incoherent and not any(entries for _, _, entries in diag):
             ctx.violation({"kind": "proof", "obligation": f"{PROPS}: {getattr(ctx, 'proof_error', '')[-2500:]}"}, no_input=True)
     # ---- tie of the translated tables to the compiled crate: registry, labels, dimensions, coefficient bits
     ok, out = coqbuild.build_runner()
@@ -157,6 +161,52 @@ def run(ctx):
                       {"registry_record": (impl.get(cases[0][0]) or "")[:200]}]
     if incoherent is not None:
         cov["incoherent_units"] = incoherent[:20]
+
+
+def describe(t, e):
+    """What the source declares for a table entry named by a diagnostic (unit -> coefficient/offset, prefix -> value)."""
+    if isinstance(e, (list, tuple)) and len(e) == 2 and e[0] in t.qmap:
+        try:
+            u = t.unit(e[0], e[1])
+            return {"coefficient": u["coef"], "exact": u["coef_q"], "offset": u["const"], "source_line": u.get("line")}
+        except KeyError:
+            return None
+    if isinstance(e, str) and e in t.d.get("prefixes", {}):
+        return {"prefix_value": t.prefix_q[e]}
+    return None
+
+
+def table_diagnostics():
+    """Evaluate, inside Coq, the list-returning forms of the table theorems (Spec/C05Defs.v): which entries fail."""
+    import os
+    import re
+    wd = C.ensure_dir(os.path.join(C.BUILD, "audit"))
+    ok, out = coqbuild.make(["theories/Spec/C05Defs.vo"])
+    if not ok:
+        return []
+    names = [("c05_anchors_exact", "failing_exact_anchors", "an exactly defined anchor unit does not have its defined value"),
+             ("c05_anchors_offsets", "failing_offset_anchors", "a temperature offset differs from its defined value"),
+             ("c05_anchors_seven_digit", "failing_seven_digit_anchors", "a unit deviates from its defined value by more than 5e-7"),
+             ("c05_prefix_table", "failing_prefixes", "a prefix! arm is not the power of ten / of 1024 its name denotes"),
+             ("c05_coherent_unit_exists", "quantities_without_coherent_unit", "a quantity has no unit with coefficient exactly 1 and no offset"),
+             ("c05_base_units_one", "failing_base_units", "a base unit of system! is not coefficient 1 / offset-free / of dimension e_i")]
+    src = ["From Coq Require Import ZArith QArith List String Bool.", "From UomV Require Import Model.Tables Spec.C05Defs.", "Open Scope string_scope."]
+    for thm, d, _ in names:
+        src.append(f'Goal True. idtac "@@ {thm}". exact I. Qed.')
+        src.append(f"Eval vm_compute in {d}.")
+    with open(os.path.join(wd, "C05Diag.v"), "w") as f:
+        f.write("\n".join(src) + "\n")
+    rc, out = C.sh(["coqc", "-noglob", "-Q", os.path.join(C.COQ, "theories"), "UomV", "C05Diag.v"], cwd=wd, timeout=900)
+    if rc != 0:
+        return []
+    res = []
+    chunks = out.split("@@ ")[1:]
+    for (thm, d, what), ch in zip(names, chunks):
+        body = ch.split("\n", 1)[1] if "\n" in ch else ""
+        pairs = re.findall(r'\("([a-z_0-9]+)",\s*"([a-z_0-9]+)"\)', body)
+        singles = [] if pairs else re.findall(r'"([a-z_0-9]+)"', body)
+        res.append((thm, what, [list(p) for p in pairs] or singles))
+    return res
 
 
 def find_incoherent(ctx):
